@@ -85,6 +85,8 @@ def coind_table(ck, facts, R, only=None, floor=24):
 
 
 def run(ck, facts, tier):
+    from shared import fixedpoint as _fpx
+    _fpx.loop_exits(ck, facts, "C05.FIXPOINT-EXITS")
     from shared import fixedpoint
     fixedpoint.table(ck, facts, "C05.FIXED-POINT-TABLE", which=("stale",))
     coind_table(ck, facts, "C05.COIND-TABLE")
